@@ -35,12 +35,12 @@ var c12plan = msgsPlan{
 	ThoroughCats:   map[string]bool{"hubfund": true, "hubsettle": true},
 	// the victim as hub, B silent: M's own well-formed funding / settlement proposal finds no partner
 	GapQuick: []gapFamily{
-		{"hub-fund-quiet", []string{"hubfund/valid"}},
-		{"hub-settle-quiet", []string{"hubsettle/valid"}},
+		{Point: "hub-fund-quiet", Names: []string{"hubfund/valid"}},
+		{Point: "hub-settle-quiet", Names: []string{"hubsettle/valid"}},
 	},
 	GapThorough: []gapFamily{
-		{"hub-fund-quiet", hubFundGapSet}, {"hub-fund", hubFundGapSet},
-		{"hub-settle-quiet", hubSettleGapSet}, {"hub-settle", hubSettleGapSet},
+		{Point: "hub-fund-quiet", Names: hubFundGapSet}, {Point: "hub-fund", Names: hubFundGapSet},
+		{Point: "hub-settle-quiet", Names: hubSettleGapSet}, {Point: "hub-settle", Names: hubSettleGapSet},
 	},
 }
 
@@ -109,8 +109,15 @@ var c07mode = msgsMode{Prop: "C07"}
 
 var c07plan = msgsPlan{
 	Points: []string{"open-v0", "open-v1", "paid-v1", "sub-v0", "sub-v1", "sub2-v1", "final-v1",
-		"await-subfund", "await-subfund2", "await-subsettle", "await-subsettle2"},
-	Cats:           map[string]bool{"update": true, "fund": true, "settle": true, "vfund": true, "vsettle": true},
+		"await-subfund", "await-subfund2", "await-subsettle", "await-subsettle2", "await-subsettle-paid"},
+	Cats: map[string]bool{"update": true, "fund": true, "settle": true, "vfund": true, "vsettle": true},
+	// the victim as hub with two virtual channels locked in its channel with M, B silent: a well-formed
+	// but unmatched settlement proposal, 11 s later an ordinary update
+	GapQuick: []gapFamily{{Point: "hub-two", Names: hubTwoSet, Pairs: [][2]string{
+		{"hubtwo/settle-first-unmatched", "hubtwo/update-locked-last-twice"},
+		{"hubtwo/settle-first-unmatched", "hubtwo/update-base"},
+		{"hubtwo/settle-last-unmatched", "hubtwo/update-locked-first-twice"}}}},
+	GapThorough:    []gapFamily{{Point: "hub-two", Names: hubTwoSet}},
 	PairPoints:     []string{"open-v1", "sub-v1"},
 	PairSeq:        true,
 	InflightPts:    []string{"open-v1"},
@@ -118,6 +125,9 @@ var c07plan = msgsPlan{
 	ThoroughPoints: []string{"hub-fund", "hub-fund2", "hub-settle", "hub-settle2"},
 	ThoroughCats:   map[string]bool{"hubfund": true, "hubsettle": true},
 }
+
+var hubTwoSet = []string{"hubtwo/update-base", "hubtwo/settle-first-unmatched", "hubtwo/settle-last-unmatched",
+	"hubtwo/update-locked-last-twice", "hubtwo/update-locked-first-twice"}
 
 func c07check(ssc schedrun.Scenario, s *vsched.Sched, o any) []schedrun.Verdict {
 	obs := o.(*msgsObs)
